@@ -675,7 +675,9 @@ func runC07(cfg Cfg) error {
 		addHead(out, ns, op, 3, nil)
 		addHead(out, ns, op, 100, nil) // a block the node does not have: null result
 		for _, c := range []simnode.Corruption{
-			{Kind: "null-result"}, {Kind: "no-result"}, {Kind: "error", Arg: -32000}, {Kind: "error", Arg: 0},
+			{Kind: "null-result"}, {Kind: "no-result"}, {Kind: "error", Arg: -32000}, {Kind: "error", Arg: 0}, {Kind: "error", Arg: -1}, {Kind: "error", Arg: -2147483648},
+			{Kind: "error-pos", Arg: 1}, {Kind: "error-pos", Arg: 3}, {Kind: "error-pos", Arg: 429}, {Kind: "error-pos", Arg: 32000},
+			{Kind: "error-pos", Arg: 2147483647}, {Kind: "error-data", Arg: 3}, {Kind: "error-data", Arg: -32000},
 			{Kind: "error-only", Arg: 3}, {Kind: "error-only", Arg: 0}, {Kind: "status", Arg: 500}, {Kind: "status", Arg: 429},
 			{Kind: "truncate", Arg: 2}, {Kind: "not-json"}, {Kind: "null-body"}, {Kind: "wrong-shape"}, {Kind: "abort"},
 			{Kind: "break-hash"}, {Kind: "renumber", Arg: 77},
